@@ -35,9 +35,10 @@ def check(case):
                 for k, v in r.items():
                     if isinstance(v, (datetime.date, datetime.datetime)) and v.year < 1000:
                         r[k] = v.replace(year=v.year + 1000)
-    st = dumps.build_state(resources, pk=cfg.get('pk', False), temporal_prop=temporal)
-    label = 'dump_to_%s(format=%s%s%s%s) of %s' % (how, fmt, ', add_filehash_to_path' if cfg.get('filehash') else '',
+    st = dumps.build_state(resources, pk=cfg.get('pk', False), temporal_prop=temporal, reverse_row_keys=cfg.get('revkeys', False))
+    label = 'dump_to_%s(format=%s%s%s%s%s) of %s' % (how, fmt, ', add_filehash_to_path' if cfg.get('filehash') else '',
                                                    ', temporal_format_property' if temporal else '', ', primaryKey' if cfg.get('pk') else '',
+                                                   ', row keys in reverse schema order' if cfg.get('revkeys') else '',
                                                    cj([{'fields': t['fields'], 'rows': t['rows']} for t in case['tables']])[:300])
     opts = {'format': fmt}
     if cfg.get('filehash'):
@@ -156,6 +157,19 @@ def cases(tier):
     many = {'fields': [[n, t] for n, t in zip('jihgfedcba', TYPES)], 'rows': [[E(vals[t][0]) for t in TYPES], [E(vals[t][-2]) for t in TYPES],
                                                                                [E(None) for t in TYPES]]}
     many_sorted = {'fields': [[n, t] for n, t in zip('abcdefghij', TYPES)], 'rows': many['rows']}
+    # several fields of one temporal type with different output formats (and none), row dicts keyed in reverse schema order
+    import datetime
+    temporal_tbl = {'fields': [['a_d1', 'date'], ['b_d2', 'date'], ['c_d3', 'date'], ['d_t1', 'time'], ['e_t2', 'time'],
+                               ['f_dt1', 'datetime'], ['g_dt2', 'datetime'], ['h_s', 'string'], ['i_n', 'number']],
+                    'rows': [[E(datetime.date(2020, 1, 2)), E(datetime.date(2021, 3, 4)), E(datetime.date(2022, 5, 6)),
+                              E(datetime.time(1, 2, 3)), E(datetime.time(4, 5, 6)), E(datetime.datetime(2020, 1, 2, 3, 4, 5)),
+                              E(datetime.datetime(2021, 6, 7, 8, 9, 10)), E('x'), E(1.5)],
+                             [E(datetime.date(2011, 12, 10)), E(None), E(datetime.date(2012, 11, 10)), E(None), E(datetime.time(23, 59, 59)),
+                              E(None), E(datetime.datetime(1999, 12, 31, 23, 59, 59)), E(None), E(None)]]}
+    for cfg in full:
+        out.append({'tables': [temporal_tbl], 'cfg': cfg})
+        out.append({'tables': [temporal_tbl], 'cfg': dict(cfg, revkeys=True)})
+        out.append({'tables': [many_sorted], 'cfg': dict(cfg, revkeys=True)})
     for cfg in full:
         for pk in (False, True):
             out.append({'tables': [many], 'cfg': dict(cfg, pk=pk)})
